@@ -246,6 +246,7 @@ func (s authStateNone) receiveRevealSigMessage(c *Conversation, msg []byte) (aut
 }
 
 func (s authStateAwaitingRevealSig) receiveRevealSigMessage(c *Conversation, msg []byte) (authState, messageWithHeader, error) {
+	previousKey := c.theirKey
 	err := c.processRevealSig(msg)
 
 	if err != nil {
@@ -254,11 +255,14 @@ func (s authStateAwaitingRevealSig) receiveRevealSigMessage(c *Conversation, msg
 
 	sigMsg, err := c.sigMessage()
 	if err != nil {
+		// the exchange has not completed: the peer key of the conversation stays what it was
+		c.theirKey = previousKey
 		return s, nil, err
 	}
 
 	sigMsg, err = c.wrapMessageHeader(msgTypeSig, sigMsg)
 	if err != nil {
+		c.theirKey = previousKey
 		return s, nil, err
 	}
 
